@@ -5,6 +5,8 @@ import (
 	"fmt"
 	"runtime"
 	"sync"
+	"sync/atomic"
+	"time"
 
 	goat "github.com/avos-io/goat"
 	"google.golang.org/grpc"
@@ -28,7 +30,7 @@ type c14Case struct {
 	Scripted bool `json:"scripted_server,omitempty"`
 }
 
-var c14Outcomes = []string{"unary-ok", "unary-error", "unary-cancel", "unary-deadline", "stream-ok", "stream-error", "stream-cancel", "stream-deadline", "stream-server-reset", "stream-early-return", "stream-cancel-abandon", "stream-send-unmarshalable"}
+var c14Outcomes = []string{"unary-ok", "unary-error", "unary-cancel", "unary-deadline", "stream-ok", "stream-error", "stream-cancel", "stream-deadline", "stream-server-reset", "stream-early-return", "stream-cancel-abandon", "stream-send-unmarshalable", "unary-expired-deadline"}
 
 func c14Gen(tier string, seed int64, idx int) c14Case {
 	r := rng(seed, idx, "c14")
@@ -170,10 +172,97 @@ func c14Scripted(tier string, seed int64, idx int, c c14Case, res *core.Result) 
 	}
 }
 
+// c14AbortParked: a stream that the library aborts itself (a message the codec cannot encode) with
+// its caller's context alive - in the one interleaving that matters: the aborting goroutine has
+// unregistered the stream (which wakes the stream's read loop) and is held, at a hook, before it
+// cancels the stream's context, until the read loop has finished. The server must still be told:
+// afterwards no stream is registered there and the handler has returned.
+func c14AbortParked(tier string, seed int64, idx int, c c14Case, res *core.Result) {
+	setGMP(c.GMP)
+	h := bed.NewHooks()
+	var armed atomic.Bool
+	parked := make(chan struct{}, 1)
+	release := make(chan struct{})
+	h.On("cs.teardown.beforeCancel", func(uint64) {
+		if armed.CompareAndSwap(true, false) {
+			parked <- struct{}{}
+			<-release
+		}
+	})
+	h.Install()
+	goat.VerifResetTracking()
+	b := bed.New(bed.Opts{Cap: c.Cap, Serialise: c.Ser})
+	cc := b.Conns[0]
+	for round := 0; round < 8 && len(res.Violations) == 0 && res.Verdict == core.Held; round++ {
+		tag := fmt.Sprintf("ap%d-%d", idx, round)
+		returned := make(chan struct{})
+		b.Impl.SetStream(tag, func(t, k string, ss grpc.ServerStream) error {
+			defer close(returned)
+			for ss.RecvMsg(new(svc.BV)) == nil {
+			}
+			return nil
+		})
+		s, err := svc.Open(context.Background(), cc, []string{"bidi", "client"}[round%2], tag, nil)
+		if err != nil {
+			res.Verdict, res.Note = core.Inconclusive, "open failed"
+			break
+		}
+		if round%2 == 1 {
+			s.Send([]byte("fine"))
+		}
+		quiet(tier)
+		armed.Store(true)
+		done := make(chan struct{})
+		go func() { s.SendMsg("not a protobuf message"); close(done) }()
+		if st, _ := settle(tier, func() bool { return len(parked) > 0 }); st != "ok" {
+			res.Verdict, res.Note = core.Inconclusive, "the aborting send did not reach the hook: "+st
+			close(release)
+			break
+		}
+		<-parked
+		quiet(tier) // the read loop has run to its end while the stream's context was still live
+		release <- struct{}{}
+		settle(tier, func() bool {
+			select {
+			case <-done:
+				return true
+			default:
+				return false
+			}
+		})
+		final, snap := quiet(tier)
+		if !final {
+			res.Verdict, res.Note = core.Inconclusive, "no final state"
+			break
+		}
+		select {
+		case <-returned:
+		default:
+			res.ViolateD("server-stream-registration-leak/library-aborted-stream", map[string]any{"goroutines": goatParked(snap)}, "round %d: the client aborted the stream itself (unencodable message, caller's context alive) and is done with it; the server's handler is still running: it was never reset", round)
+		}
+		for _, k := range goat.VerifServerStreamCounts() {
+			if k != 0 && len(res.Violations) == 0 {
+				res.Violate("server-stream-registration-leak/library-aborted-stream", "round %d: %d streams still registered on the server connection with no RPC in flight", round, k)
+			}
+		}
+		res.Stat("library_aborts_with_teardown_parked", 1)
+		res.Stat("sample_points", 1)
+		res.Stat("rpcs", 1)
+		res.Evals++
+	}
+	res.NonTrivial = true
+	finish(tier, b, h, res)
+}
+
 func c14Run(tier string, seed int64, idx int) *core.Result {
 	c := c14Gen(tier, seed, idx)
 	r := rng(seed, idx, "c14run")
 	res := &core.Result{Verdict: core.Held, Sample: c, Sig: fmt.Sprintf("%+v/%d", c, idx)}
+	if idx%10 == 8 {
+		res.Sample = map[string]any{"case": c, "family": "library-abort-with-teardown-parked"}
+		c14AbortParked(tier, seed, idx, c, res)
+		return res
+	}
 	if idx%10 == 9 {
 		c.Scripted = true
 		res.Sample = c
@@ -348,6 +437,42 @@ func c14One(cc grpc.ClientConnInterface, b *bed.Bed, gates *Gates, tag, outcome 
 			}
 		}()
 		svc.Invoke(m, cc, tag, []byte(tag))
+	case "unary-expired-deadline":
+		// the caller's deadline has already passed when it makes the call; the request may still
+		// leave (a transport need not look at the context first). A handler that waits for its
+		// context must then be released by the deadline it was sent (real timer, 1 ms at most).
+		entered, returned := make(chan struct{}), make(chan struct{})
+		b.Impl.SetUnary(tag, func(ctx context.Context, t string, req []byte) ([]byte, error) {
+			close(entered)
+			defer close(returned)
+			<-ctx.Done()
+			return nil, ctx.Err()
+		})
+		dctx, dcancel := context.WithDeadline(context.Background(), time.Now().Add(-50*time.Millisecond))
+		svc.Invoke(dctx, cc, tag, []byte(tag))
+		dcancel()
+		left := false
+		for _, e := range b.Links[0].Tap.Log() {
+			if e.Dir == 0 && kvHasTag(e.Rpc) == tag {
+				left = true
+			}
+		}
+		if left { // the request reached the server: its handler starts, and must end
+			// (polling with sleeps, not a timer select: a sleeping goroutine keeps the driver's
+			// final-state detector from calling the round stuck while a real timer is pending)
+			isClosed := func(c chan struct{}) bool {
+				select {
+				case <-c:
+					return true
+				default:
+					return false
+				}
+			}
+			for dl := time.Now().Add(5 * time.Second); !isClosed(returned) && time.Now().Before(dl); {
+				time.Sleep(200 * time.Microsecond)
+			}
+			_ = entered
+		}
 	case "stream-send-unmarshalable":
 		// the library itself aborts the stream (a message the codec cannot encode) while the caller's
 		// context stays alive; the caller does nothing more with the stream
@@ -461,12 +586,12 @@ func init() {
 	core.Register(&core.Prop{
 		ID:       "C14",
 		Level:    "exploration",
-		Rule:     "each case is one long history on ONE connection: rounds of 1..32 concurrent RPCs with outcomes drawn from {unary ok/error/cancel/deadline, stream ok/error/cancel/deadline/server-reset/early-return/cancel-with-responses-unread-and-never-touched-again/send of an unencodable message with a live context} x 3 stream kinds, plus (every 4th round) opens whose transport write fails and a stream whose send fails once in the transport write; after every round the driver waits for a provably final state and samples client registry size, server stream registry size and the number of goroutines with goat frames against the idle level. evaluations = RPCs executed; every 10th case is instead a history against a SCRIPTED server on one connection, alternating {caller cancelled / deadline fired while its send is blocked by transport back-pressure with m in 3..6 responses unread} and {first response undecodable, caller stops without cancelling, m-1 more follow}, each followed by a unary probe, sampled the same way. a case is non-trivial when all 13 outcome classes occurred in its history; distinct = distinct (parameters, seed index).",
+		Rule:     "each case is one long history on ONE connection: rounds of 1..32 concurrent RPCs with outcomes drawn from {unary ok/error/cancel/deadline, stream ok/error/cancel/deadline/server-reset/early-return/cancel-with-responses-unread-and-never-touched-again/send of an unencodable message with a live context/unary call made after its deadline had passed} x 3 stream kinds, plus (every 4th round) opens whose transport write fails and a stream whose send fails once in the transport write; after every round the driver waits for a provably final state and samples client registry size, server stream registry size and the number of goroutines with goat frames against the idle level. evaluations = RPCs executed; every 10th case is instead 8 library-aborted streams (unencodable message, caller context alive) in the interleaving where the aborting goroutine is held at a hook between unregistering the stream and cancelling its context until the read loop has finished; every 10th case is instead a history against a SCRIPTED server on one connection, alternating {caller cancelled / deadline fired while its send is blocked by transport back-pressure with m in 3..6 responses unread} and {first response undecodable, caller stops without cancelling, m-1 more follow}, each followed by a unary probe, sampled the same way. a case is non-trivial when all 14 outcome classes occurred in its history; distinct = distinct (parameters, seed index).",
 		Plan:     func(tier string, seed int64) int { return tierN(tier, 80, 640) },
 		Run:      c14Run,
 		MaxStats: []string{"idle_goat_goroutines"},
 		RequiredStats: func(string) []string {
-			return []string{"sample_points", "failed_opens", "sample_points_after_all_outcomes", "scripted_sample_points"}
+			return []string{"sample_points", "failed_opens", "sample_points_after_all_outcomes", "scripted_sample_points", "library_aborts_with_teardown_parked"}
 		},
 	})
 }
